@@ -306,6 +306,32 @@ func checkC09(ci interface{}, st *Stats) error {
 			if int(np) != int(pos)+k || !bytes.Equal(v, d[o:o+k]) {
 				return fmt.Errorf("Readf(take %d) at offset %d: position %d value %q, want %d %q", n, o, np, v, int(pos)+k, d[o:o+k])
 			}
+			// a function that consumes k bytes and has no value to return (a comment skipper), and one
+			// whose value is shorter than what it consumed
+			np, v = r.Readf(pos, func(b []byte) ([]byte, int) { return nil, k })
+			if int(np) != int(pos)+k || v != nil {
+				return fmt.Errorf("Readf with a function that consumes %d bytes without a value at offset %d: position %d value %q, want %d and no value", k, o, np, v, int(pos)+k)
+			}
+			np, v = r.Readf(pos, func(b []byte) ([]byte, int) { return b[:k/2], k })
+			if int(np) != int(pos)+k || !bytes.Equal(v, d[o:o+k/2]) {
+				return fmt.Errorf("Readf with a value shorter than the consumed %d bytes at offset %d: position %d value %q", k, o, np, v)
+			}
+			// a length beyond the end of the file is refused (the documented panic), with or without a value
+			for _, withValue := range []bool{true, false} {
+				refused := func() (refused bool) {
+					defer func() { refused = recover() != nil }()
+					r.Readf(pos, func(b []byte) ([]byte, int) {
+						if withValue {
+							return b, len(b) + 1
+						}
+						return nil, len(b) + 1
+					})
+					return false
+				}()
+				if !refused {
+					return fmt.Errorf("Readf at offset %d accepted a length one beyond the end of the file (value returned: %v)", o, withValue)
+				}
+			}
 			// a function that declines
 			np, v = r.Readf(pos, func(b []byte) ([]byte, int) { return nil, 0 })
 			if np != pos || v != nil {
